@@ -184,6 +184,8 @@ func check(c Case) error {
 						used = used[:count]
 					}
 					want := repl.Fold(r, used, func(m canon.Result) string { return repl.Expand(toks, m, r) })
+					// a bool-only call right before: Replace must not inherit anything from it
+					_, _ = re.MatchString(s)
 					got, err := re.Replace(s, rep, byteAt, count)
 					if err != nil {
 						if canon.ErrClass(err) == "timeout" {
